@@ -4,7 +4,66 @@
 // generator (govc). Compiled only with -tags verif; adds no behaviour.
 package chore
 
+import (
+	"regexp"
+
+	"github.com/coreruleset/crs-toolchain/v2/regex"
+	"github.com/coreruleset/crs-toolchain/v2/utils"
+)
+
+func implies(a, b bool) bool { return !a || b }
+
+func reReplace(re *regexp.Regexp, s, template string) string { return re.ReplaceAllString(s, template) }
+
+// SpecMarkedLine: one line after the five marker substitutions, in the order of the code:
+// header version, digits of tx.crs_setup_version, copyright year, ver:'OWASP_CRS/..',
+// SecComponentSignature. Each is the real pattern's ReplaceAllString with the template.
+func SpecMarkedLine(tVersion, tShort, tYear, tSecRule, tSignature, line string) string {
+	return reReplace(regex.CRSVersionComponentSignatureRegex,
+		reReplace(regex.CRSYearSecRuleVerRegex,
+			reReplace(regex.CRSCopyrightYearRegex,
+				reReplace(regex.ShortCRSVersionRegex,
+					reReplace(regex.CRSVersionRegex, line, tVersion), tShort), tYear), tSecRule), tSignature)
+}
+
+// SpecMarkedText: the text written for lines[0..n): every line substituted, each followed
+// by one newline, nothing else.
+func SpecMarkedText(tVersion, tShort, tYear, tSecRule, tSignature string, lines []string, n int) string {
+	if n <= 0 || n > len(lines) {
+		return ""
+	}
+	return SpecMarkedText(tVersion, tShort, tYear, tSecRule, tSignature, lines, n-1) + SpecMarkedLine(tVersion, tShort, tYear, tSecRule, tSignature, lines[n-1]) + "\n"
+}
+
+// updateRules: every line of the file goes through the five substitutions (templates
+// "${1}"+version, "${1}"+digits, "${1}"+year+"${3}", "${1}"+version, "${1}"+version) and
+// is written back in order, each followed by a newline; no line is dropped (C17).
 //@ contract updateRules
-//@   tags C17 C14
+//@   tags C14 C17
 //@   opt scan-complete C17
+//@   opt termination C14
 //@   results out err
+//@   checks[C14] templates: replaceVersion == "${1}"+version && replaceYear == "${1}"+year+"${3}" && replaceSecRuleVersion == "${1}"+version && replaceSecComponentSignature == "${1}"+version && replaceShortVersion == "${1}"+onlyNumbersVersion
+//@   checks[C14] all-lines-all-markers: implies(err == nil, out == SpecMarkedText(replaceVersion, replaceShortVersion, replaceYear, replaceSecRuleVersion, replaceSecComponentSignature, utils.OpaqueScanLines(string(contents)), len(utils.OpaqueScanLines(string(contents)))))
+//@   loop 0 invariant scanLines(scanner) == utils.OpaqueScanLines(string(contents)) && 0 <= scanPos(scanner) && scanPos(scanner) <= len(scanLines(scanner))
+//@   loop 0 invariant bufContent(output) == SpecMarkedText(replaceVersion, replaceShortVersion, replaceYear, replaceSecRuleVersion, replaceSecComponentSignature, scanLines(scanner), scanPos(scanner))
+//@   loop 0 decreases len(scanLines(scanner)) - scanPos(scanner)
+
+// processFile: reads the file, writes exactly the substituted text back to the same path.
+//@ contract processFile
+//@   tags C14 C15
+//@   results r
+//@   modifies fsWrites
+//@   ensures[C15] at-most-one-write: fsWrites() <= old(fsWrites())+1
+//@   ensures[C15] writes-own-path: implies(fsWrites() > old(fsWrites()), lastWritePath() == filePath)
+//@   checks[C14,C15] writes-updated-text: implies(fsWrites() > old(fsWrites()), called(updateRules) && lastWriteData() == resultOf(updateRules, 0) && resultOf(updateRules, 1) == nil)
+
+// the walk only hands *.conf and *.example files to processFile
+//@ contract UpdateCopyright#0
+//@   tags C14 C15
+//@   results r
+//@   modifies fsWrites
+//@   checks[C15,C14] only-conf-and-example: implies(called(processFile), utils.SpecHasSuffix(resultOf(Name, 0), ".conf") || utils.SpecHasSuffix(resultOf(Name, 0), ".example"))
+//@   checks[C14] every-conf-and-example: implies(called(IsDir) && !resultOf(IsDir, 0) && (utils.SpecHasSuffix(resultOf(Name, 0), ".conf") || utils.SpecHasSuffix(resultOf(Name, 0), ".example")), called(processFile))
+
+var _ = utils.SpecHasSuffix
